@@ -241,8 +241,10 @@ def crash_case(acc, r, tag, with_previous, chunked, route="save-profile"):
             real_replace(a, b, *x, **k)
             ticker.tick("after-replace")
         os.rename, os.replace = t_rename, t_replace
+        real_fdopen = os.fdopen
         if chunked:
             tools.open = inject.chunked_open(ticker, chunk=7)
+            os.fdopen = inject.chunked_fdopen(ticker, chunk=7, real_fdopen=real_fdopen)
         try:
             with inject.LineTicks(ticker, ("yowsup/common/tools.py", "yowsup/config/manager.py", "yowsup/profile/profile.py")):
                 if route == "save-profile":
@@ -251,6 +253,7 @@ def crash_case(acc, r, tag, with_previous, chunked, route="save-profile"):
                     YowProfile(profile).write_config(new)
         finally:
             os.rename, os.replace = real_rename, real_replace
+            os.fdopen = real_fdopen
             if chunked and "open" in vars(tools):
                 del tools.open
 
